@@ -6,6 +6,7 @@ import (
 	"math"
 	"reflect"
 	"sort"
+	"strings"
 
 	"github.com/DDP-Projekt/Kompilierer/src/ast"
 	"github.com/DDP-Projekt/Kompilierer/src/token"
@@ -184,6 +185,46 @@ func (v *rangeVisitor) VisitStructLiteral(e *ast.StructLiteral) ast.VisitResult 
 func init() {
 	dumpers["ranges"] = func(m *ast.Module, dir string) []string {
 		v := &rangeVisitor{}
+		ast.VisitModule(m, v)
+		return v.out
+	}
+}
+
+// the tree of the right-hand side of every assignment, as an s-expression (Grouping nodes dropped: parentheses only
+// steer the parser) — compared with what the Lean model of the ladder (DDP.LadderParse.parse) builds from the same tokens
+type shapeVisitor struct{ out []string }
+
+func shapeOf(e ast.Expression) string {
+	if e == nil || reflect.ValueOf(e).IsNil() {
+		return "(nil)"
+	}
+	switch e := e.(type) {
+	case *ast.Grouping:
+		return shapeOf(e.Expr)
+	case *ast.IntLit:
+		return fmt.Sprintf("(int %d)", e.Value)
+	case *ast.Ident:
+		return "(var " + e.Literal.Literal + ")"
+	case *ast.UnaryExpr:
+		return fmt.Sprintf("(un %s %s)", strings.ReplaceAll(e.Operator.String(), " ", "_"), shapeOf(e.Rhs))
+	case *ast.BinaryExpr:
+		return fmt.Sprintf("(bin %s %s %s)", strings.ReplaceAll(e.Operator.String(), " ", "_"), shapeOf(e.Lhs), shapeOf(e.Rhs))
+	case *ast.BadExpr:
+		return "(bad)"
+	default:
+		return fmt.Sprintf("(other %T)", e)
+	}
+}
+
+func (*shapeVisitor) Visitor() {}
+func (v *shapeVisitor) VisitAssignStmt(s *ast.AssignStmt) ast.VisitResult {
+	v.out = append(v.out, shapeOf(s.Rhs))
+	return ast.VisitRecurse
+}
+
+func init() {
+	dumpers["shape"] = func(m *ast.Module, dir string) []string {
+		v := &shapeVisitor{}
 		ast.VisitModule(m, v)
 		return v.out
 	}
